@@ -130,7 +130,15 @@ def coq_obs(o, nser):
     def fl(order):
         return coq_list(["(%s, %s)" % (coq_z(f["seq"]), coq_list(["(%s, %s, %s)" % (coq_z(x["s"]), coq_z(x["min"]), coq_z(x["max"])) for x in (f["series"] or [])]))
                          for f in (o["files"] or []) if f["order"] == order])
-    return "{| o_dump := %s; o_ord := %s; o_ooo := %s |}" % (coq_list(rows), fl(True), fl(False))
+    reads = []
+    for rd in o.get("reads") or []:
+        rr = []
+        for s in range(nser):
+            for r in (rd["rows"] or {}).get(str(s)) or []:
+                rr.append("((%s, %s), %s)" % (coq_z(s), coq_z(r["t"]), coq_list(["(%s, %s)" % (coq_z(x["f"]), coq_z(x["v"])) for x in (r["f"] or [])])))
+        reads.append("(%s, %s, %s, %s, %s)" % (coq_z(rd["tmin"]), coq_z(rd["tmax"]), coq_list([coq_z(f) for f in rd["fields"]]),
+                                             "true" if rd["asc"] else "false", coq_list(rr)))
+    return "{| o_dump := %s; o_ord := %s; o_ooo := %s; o_reads := %s |}" % (coq_list(rows), fl(True), fl(False), coq_list(reads))
 
 
 def case_coq(h):
@@ -372,6 +380,12 @@ def eval_agg(ck, hs, ok):
     return bad
 
 
+def canary_reads_case(t):
+    """a copy of the case text `t` in which one value of a recorded SHAPED read is changed (None when it has none)"""
+    m = re.search(r"(o_reads := \[\([^|]*?\(\(\d+%Z, \d+%Z\), \[\(\d+%Z, )(\d+)(%Z\))", t)
+    return t[:m.start(2)] + str(int(m.group(2)) + 1) + t[m.end(2):] if m else None
+
+
 def eval_model(ck, hs, ok):
     """returns {variant: {case index: (op index, code)}} ; variant in VARIANTS"""
     res = {v: {} for v in VARIANTS}
@@ -380,6 +394,11 @@ def eval_model(ck, hs, ok):
     shard = 20
     files, maps = [], []
     canary = None
+    canary_r = None
+    nreads = sum(len(o.get("reads") or []) for h in hs for o in h["ops"])
+    ck.cov["shaped_reads_replayed_on_model"] = nreads
+    if nreads == 0 and not getattr(ck, "replay", None):
+        ck.broken.append("C02: the harness recorded no shaped read (sub-range / field subset / descending / tag-set reads) to replay on the model")
     for a in range(0, len(hs), shard):
         chunk = hs[a:a + shard]
         cases, idxmaps = [], []
@@ -389,6 +408,8 @@ def eval_model(ck, hs, ok):
             idxmaps.append(m)
             if canary is None and not (h.get("oracle") or h.get("xoracle") or h.get("crash")):
                 canary = canary_case(t)
+            if canary_r is None and not (h.get("oracle") or h.get("xoracle") or h.get("crash")):
+                canary_r = canary_reads_case(t)
         txt = ("From Coq Require Import ZArith List Bool. From OG Require Import C02.Model C02.Corr.\n"
                "Import ListNotations. Open Scope Z_scope.\n"
                "Definition cases : list (nat * list (op * obs)) := [\n%s\n].\n"
@@ -404,7 +425,21 @@ def eval_model(ck, hs, ok):
                       "Import ListNotations. Open Scope Z_scope.\n"
                       "Definition cases : list (nat * list (op * obs)) := [\n%s\n].\n"
                       "Definition M00 := Eval vm_compute in mismatches false 0 cases.\nPrint M00.\n" % ";\n".join([canary] * NCAN)))
+    if canary_r is not None:
+        files.append(("c02canaryr", "From Coq Require Import ZArith List Bool. From OG Require Import C02.Model C02.Corr.\n"
+                      "Import ListNotations. Open Scope Z_scope.\n"
+                      "Definition cases : list (nat * list (op * obs)) := [\n%s\n].\n"
+                      "Definition M00 := Eval vm_compute in mismatches false 0 cases.\nPrint M00.\n" % ";\n".join([canary_r] * NCAN)))
     outs = ck.coq_eval_many(files, timeout=600)
+    if canary_r is not None:
+        rc, o = outs.pop()
+        m = re.search(r"M00\s*=\s*(.*?)\s*:\s*list", o, re.S)
+        tups = coq_tuples(m.group(1), 3) if rc == 0 and m else None
+        if tups is None or {t[0] for t in tups} != set(range(NCAN)) or {t[2] for t in tups} != {6}:
+            ck.broken.append("C02 canary: a corrupted shaped read was not reported with code 6 by the model evaluation (read back: %s)" % (
+                o[-300:] if tups is None else sorted(tups)[:NCAN]))
+    elif nreads > 0:
+        ck.broken.append("C02 canary: no history without an oracle failure to build the corrupted shaped read from")
     if canary is not None:
         rc, o = outs.pop()
         m = re.search(r"M00\s*=\s*(.*?)\s*:\s*list", o, re.S)
@@ -426,7 +461,8 @@ def eval_model(ck, hs, ok):
     return res
 
 
-CODES = {1: "rows read differ", 2: "ordered file layout differs", 3: "out-of-order file layout differs",
+CODES = {6: "a shaped read (sub-range / field subset / descending / multi-series tag set) differs from the model's read_layout",
+         1: "rows read differ", 2: "ordered file layout differs", 3: "out-of-order file layout differs",
          4: "plan / sequence numbers outside what the model allows", 5: "layout invariant broken in the model"}
 
 
